@@ -30,18 +30,18 @@ CHECKS = {
     "C06": dict(
         engine="rtc", category="exploration", design_ref="DESIGN.md §4, §6 C06",
         technique="run-time contracts on the real operations over an exhaustively enumerated bounded scope (bounded stand-in for a deductive proof; NumPy-heavy bodies are outside the VC generator)",
-        text="One contract per index operation with the postcondition over the whole dense view plus frame clauses, evaluated on every well-formed state in scope (not only reachable ones) and every argument in scope; histories follow by induction over the contracts. Bounded in input size, not a proof.",
+        text="One contract per index operation with the postcondition over the whole dense view plus frame clauses, evaluated on every well-formed state in scope (not only reachable ones) and every argument in scope, plus medium-size states (up to 300 rows, 40 distinct values, 20 columns) and multi-step histories; histories follow by induction over the contracts. Proved part (engine A, all inputs): per-key set algebra of union/intersection/difference_update and set_if from the real ASTs, chained on the proved kernel wrappers; call-site obligations of collapsed's fit_dtype call. The rest is bounded in input size, not a proof.",
         note="Holds only on the enumerated scope (1-D N<=3 over 4 values x 5 commons, 2-D N<=2 x C<=2, 3-D (N,2,2) for slicing; all ordered pairs at N<=2; thorough tier larger). Spec layer (view/wf/mk) is trusted and independent of the code under test.",
     ),
     "C07": dict(
         engine="rtc", category="exploration", design_ref="DESIGN.md §4, §6 C07",
-        technique="run-time contracts: `ensures wf(result)` (one clause per conjunct) on every operation over an exhaustive bounded scope",
+        technique="run-time contracts: `ensures wf(result)` (one clause per conjunct) on every operation over an exhaustive bounded scope; sortedness / non-emptiness of the *_update results proved per key (z3) from the real ASTs",
         text="Each conjunct of well-formedness (strictly increasing uint32 row ids below the row count, coordinates in shape, exclusivity, nothing under common, no empty entry) is a named postcondition of every operation, plus validate(True) and the observers (abscissae, sparsity, inferred cube shape). Bounded in input size.",
         note="Same enumeration as C06; bounded scope; wf predicate is the spec layer's, stronger than the library validator.",
     ),
     "C15": dict(
         engine="rtc", category="exploration", design_ref="DESIGN.md §4, §6 C15",
-        technique="run-time contracts: mode clause on every library-chosen normalisation; ==/!= laws on all ordered pairs of states in scope",
+        technique="run-time contracts: mode clause on every library-chosen normalisation; ==/!= laws on all ordered pairs of states in scope; __eq__/__ne__ proved equivalent to canonical equality for all well-formed operands (real return expression translated to SMT-LIB; cvc5 finite sets with cardinality + z3)",
         text="`count(view, common) == max count` after shift_common(), append, filtered, collapsed; (a == b) iff shape, common and dense content coincide, != is its negation and never raises, reflexive/symmetric, False against non-indexes, results of operations equal their directly built twins. Bounded in input size.",
         note="Bounded scope (all ordered pairs of 1-D states N<=2 and 2-D states N<=2,C<=2 in quick tier).",
     ),
